@@ -203,19 +203,18 @@ func (s *Stream) readBuf() []byte {
 		s.buf = make([]byte, s.bufSize)
 		copy(s.buf, remainBuf)
 	}
-	remainLen := s.length - s.cursor
-	remainNotNulCharNum := int64(0)
-	for i := int64(0); i < remainLen; i++ {
-		if s.buf[s.cursor+i] == nul {
-			break
-		}
-		remainNotNulCharNum++
-	}
-	s.length = s.cursor + remainNotNulCharNum
-	return s.buf[s.cursor+remainNotNulCharNum:]
+	return s.buf[s.length:]
 }
 
 func (s *Stream) read() bool {
+	if s.cursor < s.length && s.buf[s.cursor] == nul {
+		// the scanners ask for more when they meet the NUL behind the buffered data; this one is inside
+		// it: a NUL byte of the input, which no JSON text contains outside an escape
+		if s.readErr == nil {
+			s.readErr = errors.ErrSyntax("invalid character '\\x00' in the input", s.totalOffset())
+		}
+		return false
+	}
 	if s.allRead || s.readErr != nil {
 		return false
 	}
